@@ -182,7 +182,7 @@ def install_valid_hook():
             depth = 0
             while f is not None and depth < 12:
                 fn = f.f_code.co_filename
-                if "csvpath" in fn and "vfy" not in fn:
+                if "/csvpath/" in fn and "/vfy/" not in fn:
                     slf = f.f_locals.get("self")
                     cause = f"{type(slf).__name__}.{f.f_code.co_name}" if slf is not None else f.f_code.co_name
                     break
